@@ -54,7 +54,7 @@ ESSENTIAL = {
     "C15_jid": ["must-reject", "must-accept", "domain-with-resource", "resource-with-slash-or-at"],
     "C16_component": ["id-or-secret-needs-escaping", "reply-stream-error", "reply-unexpected", "reconnection"],
     "C17_fifo": ["pop-after-empty-and-refill", "mixed-peek-pop", "push-of-held-entry", "caller-changes-own-entry"],
-    "C18_keepalive": ["ping-failure", "session-end", "end-to-end", "over-starttls", "slow-disconnected-handler", "over-websocket", "after-disconnect-in-flight"],
+    "C18_keepalive": ["ping-failure", "session-end", "end-to-end", "over-starttls", "slow-disconnected-handler", "over-websocket", "after-disconnect-in-flight", "ping-fails-after-reconnection"],
     "C19_backoff": ["overflowing-attempt", "reset", "jitter", "no-jitter"],
     "C20_address": ["ipv6", "explicit-port", "ws", "wss", "ws-unusual-host"],
 }
